@@ -6,6 +6,8 @@ import (
 	"errors"
 	"fmt"
 	"io"
+	"net"
+	"os"
 	"reflect"
 	"runtime"
 	"strings"
@@ -391,7 +393,12 @@ func TestC20(t *testing.T) {
 			for k := 1; k <= calls; k++ {
 				rep.Eval(1)
 				rep.Count("write_fault_positions", 1)
-				fw := &recWriter{failAt: k, err: errors.New("disk full"), failMode: k % 3}
+				// the error is a plain one or of the timeout class (a pipe, socket or serial device with a write deadline)
+				werr := []error{errors.New("disk full"), fmt.Errorf("log device: %w", os.ErrDeadlineExceeded), &net.OpError{Op: "write", Net: "unix", Err: os.ErrDeadlineExceeded}}[(k/3)%3]
+				if (k/3)%3 != 0 {
+					rep.Count("write_faults_of_the_timeout_class", 1)
+				}
+				fw := &recWriter{failAt: k, err: werr, failMode: k % 3}
 				var bw io.Writer = fw
 				if k%2 == 0 {
 					// a staged writer with a Flush method of its own whose write error is not sticky (Flush succeeds afterwards)
@@ -411,7 +418,7 @@ func TestC20(t *testing.T) {
 						}
 						reported = true
 						failedIdx = ei
-						if err.Error() != "disk full" {
+						if !errors.Is(err, werr) && err.Error() != werr.Error() {
 							rep.Violation(fmt.Sprintf("what=werr@%s", "k"), "the transport's write error was replaced by another error: "+err.Error(), k)
 						}
 						// the application goes on logging: the transport works again
